@@ -28,7 +28,7 @@ BUILTIN_COQ = ["BInt", "BFloat", "BStr", "BBool", "BDatetime", "BNoneType"]
 ORIGINS = ["None", "Union", "Optional", "UnionType", "List", "Set", "Tuple", "Sequence", "Type", "Dict"]
 ORIGIN_COQ = ["ONone", "OUnion", "OOptional", "OUnionType", "OList", "OSet", "OTuple", "OSeq", "OType", "ODict"]
 EXN = {"TypeError": 1, "ValueError": 2, "IndexError": 3, "AttributeError": 4, "MissingContainedTypeOfContainer": 5,
-       "NameError": 6}
+       "NameError": 6, "StopIteration": 7}
 PRED_NAMES = ["is_builtin_type", "is_optional", "is_enum", "is_container", "is_one_to_one_relationship",
               "is_one_to_many_relationship", "is_type_type", "is_iterable", "type_endpoint",
               "is_collection_of_builtins", "is_role_taker", "container_type", "contained_type"]
@@ -142,7 +142,7 @@ def is_base(t) -> bool:
 
 
 def wf_ty(t) -> bool:
-    if t[0] in ("O", "T"):
+    if t[0] in ("O", "OL", "T"):
         return is_base(t[1])
     if t[0] == "K":
         return is_base(t[2])
@@ -514,9 +514,7 @@ def gen_ann(rng, targets_cls, targets_enum, earlier, variant, unsupported=False)
         n = rng.choice(targets_enum)
         leaf = ("E", n) if (n in earlier and variant == "leaf" and rng.chance(0.6)) else ("F", n)
     if unsupported:
-        w = rng.randint(0, 5)
-        if w == 0:
-            return ("OL", leaf)
+        w = rng.randint(1, 5)
         if w == 1:
             return ("P", leaf)
         if w == 2:
@@ -529,8 +527,10 @@ def gen_ann(rng, targets_cls, targets_enum, earlier, variant, unsupported=False)
     r = rng.random()
     if r < 0.35:
         return leaf
-    if r < 0.6:
+    if r < 0.52:
         return ("O", leaf)
+    if r < 0.6:
+        return ("OL", leaf)   # Union[None, T], top level only (typing's cache hides it inside other generics)
     if r < 0.9:
         return ("K", rng.randint(0, 3), leaf)
     return ("T", leaf)
@@ -787,6 +787,8 @@ def check_classification(rep, model_ok: bool, kf_classes: set, depth: int = 2) -
         rep.count(key, True)
         if inwf:
             stats["in_wf_ty"] += 1
+            if rt[0] == "OL":
+                stats["union_none_first"] += 1
         if model_vals is not None and impl != model_vals[i]:
             stats["mismatch_model"] += 1
             bad_model.append((t, impl, model_vals[i]))
@@ -798,15 +800,6 @@ def check_classification(rep, model_ok: bool, kf_classes: set, depth: int = 2) -
                                "impl": dict(zip(PRED_NAMES[:9], impl[:9])), "spec": dict(zip(PRED_NAMES[:9], spec_vals[i])),
                                "model": None if model_vals is None else model_vals[i],
                                "python": _classify_snippet(t)})
-        elif rt[0] == "OL" and rt[1][0] in ("C", "E"):
-            stats["union_none_first"] += 1
-            if impl[:9] != spec_vals[i]:
-                if "K_union_none_first" in kf_classes and model_vals is not None and impl == model_vals[i]:
-                    observations["K_union_none_first instances"] = observations.get("K_union_none_first instances", 0) + 1
-                else:
-                    rep.violation({"kind": "counterexample", "part": "classification", "case": {"annotation": ty_py(t, True)},
-                                   "impl": impl, "spec": spec_vals[i], "model": None if model_vals is None else model_vals[i],
-                                   "python": _classify_snippet(t), "explanation": "Union[None, X] misclassified in a way the model does not predict, or the finding is not listed"})
         elif rt[0] == "P" and rt[1][0] in ("C", "E"):
             stats["pep604_top"] += 1
             if impl[1] == 0:
